@@ -1,28 +1,39 @@
 """C04 implementation side: replays one history of Connect / Hello / AddMatch /
-RequestName / ReleaseName / Disconnect events against a fresh dbus-daemon (the
-ASan build of /repo's working tree) with raw-wire clients, and reports, per
-event, exactly what the model driver (ml/registry/driver.ml) reports:
+RequestName / ReleaseName / Disconnect / ReloadConfig events against a fresh
+dbus-daemon (the ASan build of /repo's working tree) with raw-wire clients, and
+reports, per event,
 
     <outs>;<queries>;<names>
 
-  outs     every message each connection received because of the event, per
-           socket in arrival order:  <conn>><msg>,...   (grouped by connection)
-  queries  for each probe GetNameOwner / NameHasOwner / ListQueuedOwners as seen
-           by connection 0 after the event
-  names    ListNames as a sorted set
+with the RAW strings that were on the wire (hex; "-" = empty string), exactly as
+the driver-layer model (coq/Registry/Driver.v via `drun` of ml/registry/driver.ml)
+prints them:
 
-Unique names are mapped to connection indices.  Synchronisation is by round
-trips only (no sleeps): after an event every live connection does a GetId round
-trip, so everything the bus queued for it before has arrived; after a
-disconnection connection 0 polls NameHasOwner(<unique name>) until it is gone.
-Connection 0 must be the first connection and must never disconnect (it is the
-control connection for queries); the generators guarantee that."""
-import os, sys
+  outs     every message each connection received because of the event, per
+           socket in arrival order:  <conn>><msg>,...      msg = hello:<hex> | reply:<n> |
+           ack | err:<Name> | acq:<hex> | lost:<hex> | noc:<hex>:<hex>:<hex>
+  queries  for each probe GetNameOwner / NameHasOwner / ListQueuedOwners as asked
+           by connection 0 after the event:  <probe>=s<hex>|e:<Name> / 0|1 / <hex>+<hex>..|e:<Name>
+           probe = x<hex> (raw string) | S<hex> (raw string) | U<c> (unique name of connection c,
+           ":0.<c>" if it never got one)
+  names    ListNames as a sorted set of hex strings
+
+`canon_result` maps such a line to the abstract vocabulary of the registry model
+(`run` of the ml driver: unique names as connection indices).
+
+Synchronisation is by round trips only (no sleeps): after an event every live
+connection does a GetId round trip, so everything the bus queued for it before
+has arrived; after a disconnection connection 0 polls NameHasOwner(<unique name>)
+until it is gone.  Connection 0 must be the first connection and must never
+disconnect (it is the control connection for queries); the generators guarantee
+that."""
+import os, sys, time
 sys.path.insert(0, os.path.dirname(os.path.abspath(__file__)))
 import rawbus
 from rawbus import METHOD_RETURN, ERROR, SIGNAL, F_REPLY_SERIAL, F_SENDER, F_PATH, F_INTERFACE, F_MEMBER, F_DESTINATION, F_ERROR_NAME
 
 BUS = "org.freedesktop.DBus"
+BUS_HEX = BUS.encode().hex()
 MATCH_RULE = "type='signal',sender='org.freedesktop.DBus',interface='org.freedesktop.DBus',member='NameOwnerChanged'"
 ERR_PREFIX = "org.freedesktop.DBus.Error."
 TIMEOUT = 60.0     # generous: a loaded machine must not turn into a false alarm; nothing waits this long normally
@@ -32,37 +43,42 @@ class Broken(Exception):
     pass
 
 
+def hx(s):
+    b = s.encode("utf-8") if isinstance(s, str) else bytes(s)
+    return b.hex() if b else "-"
+
+
+def unhx(h):
+    return bytes.fromhex("" if h == "-" else h).decode("utf-8")
+
+
+def policy_xml(rules):
+    """rules: '-' or '+'-joined a*|d*|aN<hex>|dN<hex>|aP<hex>|dP<hex> -> the <policy context="default"> of the test bus"""
+    own = []
+    for r in ([] if rules == "-" else rules.split("+")):
+        tag = "allow" if r[0] == "a" else "deny"
+        if r[1] == "*":
+            own.append('<%s own="*"/>' % tag)
+        elif r[1] == "N":
+            own.append('<%s own="%s"/>' % (tag, unhx(r[2:])))
+        else:
+            own.append('<%s own_prefix="%s"/>' % (tag, unhx(r[2:])))
+    return ('<policy context="default">\n    <allow send_destination="*" eavesdrop="true"/>\n    <allow eavesdrop="true"/>\n    '
+            + "\n    ".join(own) + "\n  </policy>")
+
+
+def limits_xml(limit):
+    return '<limit name="max_names_per_connection">%d</limit>' % limit
+
+
 class Session:
-    def __init__(self, daemon_exe, limit):
-        limits = '<limit name="max_names_per_connection">%d</limit>' % limit
-        self.d = rawbus.Daemon(daemon_exe, limits=limits)
+    def __init__(self, daemon_exe, limit, rules="a*"):
+        self.d = rawbus.Daemon(daemon_exe, policy=policy_xml(rules), limits=limits_xml(limit))
         self.clients = []          # index -> RawConn or None (closed)
         self.unique = {}           # index -> unique name string (once Hello succeeded)
-        self.by_name = {}          # unique name string -> index
 
-    # ---- canonical text ----------------------------------------------------
-    def key(self, s):
-        if s in self.by_name:
-            return "U%d" % self.by_name[s]
-        b = s.encode("utf-8")
-        return "S" + (b.hex() if b else "-")
-
-    def who(self, s):
-        if s == BUS:
-            return "B"
-        if s in self.by_name:
-            return "c%d" % self.by_name[s]
-        return "?" + s
-
-    def optc(self, s):
-        if s == "":
-            return "-"
-        if s in self.by_name:
-            return str(self.by_name[s])
-        return "?" + s
-
-    def canon_msg(self, idx, m, op_serial, op_kind):
-        """one received message -> model vocabulary"""
+    # ---- wire -> text ------------------------------------------------------------
+    def raw_msg(self, idx, m, op_serial, op_kind):
         f = m.fields
         if m.mtype in (METHOD_RETURN, ERROR):
             if f.get(F_REPLY_SERIAL) != op_serial:
@@ -73,14 +89,10 @@ class Session:
                 n = f.get(F_ERROR_NAME, "")
                 return "err:" + (n[len(ERR_PREFIX):] if n.startswith(ERR_PREFIX) else n) + meta
             if op_kind == "H":
-                if m.sig != "s":
-                    return "badreply:%r" % (m,)
-                return "hello:%s" % (self.by_name.get(m.body[0], "?" + m.body[0]),) + meta
+                return ("hello:" + hx(m.body[0]) if m.sig == "s" else "badreply:%r" % (m,)) + meta
             if op_kind in ("R", "L"):
-                if m.sig != "u":
-                    return "badreply:%r" % (m,)
-                return "reply:%d" % m.body[0] + meta
-            if op_kind == "M":
+                return ("reply:%d" % m.body[0] if m.sig == "u" else "badreply:%r" % (m,)) + meta
+            if op_kind in ("M", "W"):
                 return ("ack" if m.sig == "" else "badreply:%r" % (m,)) + meta
             return "stray-reply:%r" % (m,)
         if m.mtype == SIGNAL:
@@ -88,17 +100,16 @@ class Session:
             mem = f.get(F_MEMBER)
             if mem in ("NameAcquired", "NameLost") and m.sig == "s":
                 ok = ok and f.get(F_DESTINATION) == self.unique.get(idx)
-                return ("acq:" if mem == "NameAcquired" else "lost:") + self.key(m.body[0]) + ("" if ok else "!meta")
+                return ("acq:" if mem == "NameAcquired" else "lost:") + hx(m.body[0]) + ("" if ok else "!meta")
             if mem == "NameOwnerChanged" and m.sig == "sss":
                 ok = ok and F_DESTINATION not in f
-                return "noc:%s:%s:%s" % (self.key(m.body[0]), self.optc(m.body[1]), self.optc(m.body[2])) + ("" if ok else "!meta")
+                return "noc:%s:%s:%s" % (hx(m.body[0]), hx(m.body[1]), hx(m.body[2])) + ("" if ok else "!meta")
         return "other:%r" % (m,)
 
     # ---- plumbing ------------------------------------------------------------
     def connect(self):
         """rawbus.Daemon returns as soon as the socket file exists, which is after bind() but possibly
         before listen(): retry a refused connection while the daemon is starting"""
-        import time
         t_end = time.time() + 10
         while True:
             try:
@@ -118,13 +129,13 @@ class Session:
         return r
 
     def collect(self, actor, op_serial, op_kind):
-        """barrier every live connection, then canonicalise what each one got"""
+        """barrier every live connection, then write down what each one got"""
         outs = []
         for i, c in self.live():
             if c.barrier(timeout=TIMEOUT) is None:
                 raise Broken("connection %d: no reply to the barrier (closed by the bus: %s)" % (i, c.closed))
             for m in c.inbox:
-                outs.append("%d>%s" % (i, self.canon_msg(i, m, op_serial if i == actor else None, op_kind)))
+                outs.append("%d>%s" % (i, self.raw_msg(i, m, op_serial if i == actor else None, op_kind)))
             c.inbox = []
         return outs
 
@@ -132,7 +143,16 @@ class Session:
         if p[0] == "U":
             i = int(p[1:])
             return self.unique.get(i, ":0.%d" % i)      # ":0.N" is never assigned by the bus
-        return bytes.fromhex("" if p[1:] == "-" else p[1:]).decode("utf-8")
+        return unhx(p[1:] if len(p) > 1 else "-")
+
+    @staticmethod
+    def answer(r, sig, fmt):
+        if r.mtype == METHOD_RETURN and r.sig == sig:
+            return fmt(r.body[0])
+        if r.mtype == ERROR:
+            n = r.fields.get(F_ERROR_NAME, "")
+            return "e:" + (n[len(ERR_PREFIX):] if n.startswith(ERR_PREFIX) else n)
+        return "?%r" % (r,)
 
     def queries(self, probes):
         if not self.clients or self.clients[0] is None or 0 not in self.unique:
@@ -141,28 +161,11 @@ class Session:
         qs = []
         for p in probes:
             name = self.probe_name(p)
-            r = self.call(c0, "GetNameOwner", "s", (name,))
-            if r.mtype == METHOD_RETURN and r.sig == "s":
-                owner = self.who(r.body[0])
-            elif r.mtype == ERROR and r.fields.get(F_ERROR_NAME) == ERR_PREFIX + "NameHasNoOwner":
-                owner = "-"
-            else:
-                owner = "?%r" % (r,)
-            r = self.call(c0, "NameHasOwner", "s", (name,))
-            has = ("1" if r.body[0] else "0") if (r.mtype == METHOD_RETURN and r.sig == "b") else "?%r" % (r,)
-            r = self.call(c0, "ListQueuedOwners", "s", (name,))
-            if r.mtype == METHOD_RETURN and r.sig == "as":
-                queued = "+".join(self.who(x) for x in r.body[0]) if r.body[0] else "empty"
-            elif r.mtype == ERROR and r.fields.get(F_ERROR_NAME) == ERR_PREFIX + "NameHasNoOwner":
-                queued = "-"
-            else:
-                queued = "?%r" % (r,)
+            owner = self.answer(self.call(c0, "GetNameOwner", "s", (name,)), "s", lambda v: "s" + hx(v))
+            has = self.answer(self.call(c0, "NameHasOwner", "s", (name,)), "b", lambda v: "1" if v else "0")
+            queued = self.answer(self.call(c0, "ListQueuedOwners", "s", (name,)), "as", lambda v: "+".join(hx(x) for x in v) if v else "empty")
             qs.append("%s=%s/%s/%s" % (p, owner, has, queued))
-        r = self.call(c0, "ListNames")
-        if r.mtype == METHOD_RETURN and r.sig == "as":
-            names = "+".join(sorted("B" if x == BUS else self.key(x) for x in r.body[0]))
-        else:
-            names = "?%r" % (r,)
+        names = self.answer(self.call(c0, "ListNames"), "as", lambda v: "+".join(sorted(hx(x) for x in v)))
         return (",".join(qs) if qs else "-"), names
 
     # ---- one event --------------------------------------------------------------
@@ -203,12 +206,18 @@ class Session:
             m = rawbus.Msg(rawbus.METHOD_CALL, 0, c.next_serial(), hdr, "s", (MATCH_RULE,))
         elif kind == "R":
             hdr[rawbus.F_MEMBER] = "RequestName"
-            name = bytes.fromhex("" if parts[1] == "-" else parts[1]).decode("utf-8")
-            m = rawbus.Msg(rawbus.METHOD_CALL, 0, c.next_serial(), hdr, "su", (name, int(parts[2])))
+            m = rawbus.Msg(rawbus.METHOD_CALL, 0, c.next_serial(), hdr, "su", (unhx(parts[1]), int(parts[2])))
         elif kind == "L":
             hdr[rawbus.F_MEMBER] = "ReleaseName"
-            name = bytes.fromhex("" if parts[1] == "-" else parts[1]).decode("utf-8")
-            m = rawbus.Msg(rawbus.METHOD_CALL, 0, c.next_serial(), hdr, "s", (name,))
+            m = rawbus.Msg(rawbus.METHOD_CALL, 0, c.next_serial(), hdr, "s", (unhx(parts[1]),))
+        elif kind == "W":
+            # the configuration file changes, then the client asks the bus to read it again
+            conf = rawbus.SESSION_CONF % {"type": "session", "sock": self.d.sock, "policy": policy_xml(parts[1]),
+                                          "limits": limits_xml(int(parts[2])), "servicedirs": "", "auth": ""}
+            with open(self.d.conf, "w") as f:
+                f.write(conf)
+            hdr[rawbus.F_MEMBER] = "ReloadConfig"
+            m = rawbus.Msg(rawbus.METHOD_CALL, 0, c.next_serial(), hdr)
         else:
             raise Broken("bad event " + ev)
         serial = c.send(m)
@@ -217,7 +226,6 @@ class Session:
             raise Broken("no reply to %s (connection closed by the bus: %s, daemon alive: %s)" % (ev, c.closed, self.d.alive()))
         if kind == "H" and r.mtype == METHOD_RETURN and r.sig == "s":
             self.unique[actor] = r.body[0]
-            self.by_name[r.body[0]] = actor
         return actor, serial, kind
 
     def close(self):
@@ -229,7 +237,6 @@ class Session:
 def _wait_reply_keep_position(conn, serial, timeout=None):
     """like RawConn.wait_reply, but leaves the reply in the inbox (so that its position relative
     to the signals on the same socket stays observable) and returns it"""
-    import time
     t_end = time.time() + (TIMEOUT if timeout is None else timeout)
     while True:
         for m in conn.inbox:
@@ -240,9 +247,10 @@ def _wait_reply_keep_position(conn, serial, timeout=None):
         conn._pump(max(0.0, min(0.5, t_end - time.time())))
 
 
-def run_history(daemon_exe, limit, probes, events):
-    """returns (list of per-event result strings, error text or None, daemon stderr or None)"""
-    s = Session(daemon_exe, limit)
+def run_history(daemon_exe, limit, rules, probes, events):
+    """returns (list of per-event raw result strings, {hex unique name: connection index}, error text or None,
+    daemon stderr or None)"""
+    s = Session(daemon_exe, limit, rules)
     res, err = [], None
     try:
         for ev in events:
@@ -256,22 +264,92 @@ def run_history(daemon_exe, limit, probes, events):
     bad = None
     if rc not in (0, -15) or "ERROR: AddressSanitizer" in stderr or "runtime error:" in stderr or "assertion failed" in stderr.lower():
         bad = "daemon exit status %s\n%s" % (rc, stderr[-3000:])
-    return res, err, bad
+    return res, {hx(u): i for i, u in s.unique.items()}, err, bad
 
 
+# ---- raw -> abstract vocabulary (unique names as connection indices) ------------------------------
+def _key(h, names):
+    return "U%d" % names[h] if h in names else "S" + h
+
+
+def _who(h, names):
+    if h == BUS_HEX:
+        return "B"
+    return "c%d" % names[h] if h in names else "?" + h
+
+
+def _optc(h, names):
+    if h == "-":
+        return "-"
+    return str(names[h]) if h in names else "?" + h
+
+
+def _canon_tok(t, names):
+    meta = ""
+    if t.endswith("!meta"):
+        t, meta = t[:-5], "!meta"
+    kind, _, rest = t.partition(":")
+    if kind == "hello":
+        return "hello:%s" % (names.get(rest, "?" + rest),) + meta
+    if kind in ("acq", "lost"):
+        return kind + ":" + _key(rest, names) + meta
+    if kind == "noc":
+        a, b, c = rest.split(":")
+        return "noc:%s:%s:%s" % (_key(a, names), _optc(b, names), _optc(c, names)) + meta
+    return t + meta
+
+
+def canon_result(raw, names, keep=lambda probe: probe[0] in "US"):
+    """one raw result line -> the vocabulary of the registry model's `run` (probes selected by `keep` only)"""
+    parts = raw.split(";")
+    if len(parts) != 3:
+        return raw
+    o, q, n = parts
+    if o != "-":
+        o = ",".join(x.split(">", 1)[0] + ">" + _canon_tok(x.split(">", 1)[1], names) for x in o.split(","))
+    if q != "-":
+        qs = []
+        for item in q.split(","):
+            p, _, ans = item.partition("=")
+            if not keep(p):
+                continue
+            owner, has, queued = ans.split("/")
+            owner = "-" if owner == "e:NameHasNoOwner" else _who(owner[1:], names) if owner.startswith("s") else "?" + owner
+            if queued == "e:NameHasNoOwner":
+                queued = "-"
+            elif queued != "empty" and not queued.startswith(("e:", "?")):
+                queued = "+".join(_who(x, names) for x in queued.split("+"))
+            qs.append("%s=%s/%s/%s" % (p, owner, has, queued))
+        q = ",".join(qs) if qs else "-"
+    if n != "-" and not n.startswith(("e:", "?")):
+        n = "+".join(sorted("B" if x == BUS_HEX else _key(x, names) for x in n.split("+")))
+    return o + ";" + q + ";" + n
+
+
+def raw_result(raw, keep=lambda probe: probe[0] == "x"):
+    """one raw result line restricted to the raw-string probes (what `drun` prints)"""
+    parts = raw.split(";")
+    if len(parts) != 3:
+        return raw
+    o, q, n = parts
+    if q != "-":
+        qs = [item for item in q.split(",") if keep(item.partition("=")[0])]
+        q = ",".join(qs) if qs else "-"
+    return o + ";" + q + ";" + n
 
 
 def worker(job):
-    """job = (daemon_exe, limit, probes list, events list); for multiprocessing pools"""
+    """job = (daemon_exe, limit, rules, probes list, events list); for multiprocessing pools"""
     return run_history(*job)
 
 
 if __name__ == "__main__":
-    # manual replay:  registry_run.py <daemon> <limit> <probes|-> <event> ...
-    exe, limit, probes = sys.argv[1], int(sys.argv[2]), sys.argv[3]
-    r, e, b = run_history(exe, limit, [] if probes == "-" else probes.split(","), sys.argv[4:])
-    for ev, line in zip(sys.argv[4:], r):
+    # manual replay:  registry_run.py <daemon> <limit> <rules|-> <probes|-> <event> ...
+    exe, limit, rules, probes = sys.argv[1], int(sys.argv[2]), sys.argv[3], sys.argv[4]
+    r, names, e, b = run_history(exe, limit, rules, [] if probes == "-" else probes.split(","), sys.argv[5:])
+    for ev, line in zip(sys.argv[5:], r):
         print(ev, "->", line)
+        print("   abstract:", canon_result(line, names))
     if e:
         print("ERROR", e)
     if b:
